@@ -18,10 +18,10 @@ H="$(cd "$(dirname "$0")" && pwd)/harness"
   echo "require github.com/anishathalye/porcupine v1.3.0"
   echo
   echo "replace github.com/elnosh/gonuts => $REPO"
-} > "$H/go.mod.new"
-if ! cmp -s "$H/go.mod.new" "$H/go.mod.gen" 2>/dev/null; then
-  cp "$H/go.mod.new" "$H/go.mod.gen"
-  cp "$H/go.mod.new" "$H/go.mod"
+} > "$H/go.mod.new.$$"
+if ! cmp -s "$H/go.mod.new.$$" "$H/go.mod.gen" 2>/dev/null; then
+  cp "$H/go.mod.new.$$" "$H/go.mod.gen"
+  cp "$H/go.mod.new.$$" "$H/go.mod"
   cat "$REPO/go.sum" "$H/go.sum.extra" 2>/dev/null | sort -u > "$H/go.sum"
 fi
-rm -f "$H/go.mod.new"
+rm -f "$H/go.mod.new.$$"
